@@ -91,7 +91,7 @@ fn exec_c<C: Suite>(scen: &Scenario) -> Exec {
     let sim = match run_honest::<C>(scen, &mut rep) {
         Ok(s) => s,
         Err(v) if v.oracle == "harness" => return Exec::Harness(v.detail),
-        Err(v) => return Exec::Violation(Violation::new("C17", &v.oracle.replace("C17.", "C17.honest_"), v.detail), rep),
+        Err(v) => return Exec::Violation(v, rep),
     };
     let kps = current_kps(&sim);
     let viol = |o: &str, d: String| Violation::new("C17", o, d);
